@@ -66,9 +66,28 @@ def oracle (name : String) (ts : List String) : Option Bool :=
       pure (decide (CropSpec ⟨3, nm⟩ inside m o))
   | _ => none
 
+/-- `Changed k f input output` of Props/C03 (`translate_spec` … `normalize_spec`; for the normals the
+    definition of `smoothNormals` / `flatNormals`): frame untouched AND attribute `k` is exactly the stated
+    function of the old array. Given the frame this is: output = the mesh the stated map produces. -/
+def changedOracle (args : List String) : Option Bool :=
+  match args with
+  | name :: rest => do
+    let res ← applyOp name rest
+    -- the implementation's output is the last mesh on the line
+    let n := (rest.reverse.dropWhile (· ≠ "M")).length
+    let (o, _) ← pMesh (rest.drop (n - 1))
+    match res with
+    | some [m] => pure (showMesh m == showMesh o)
+    | _ => pure false
+  | [] => none
+
 /-- one request -> one answer line; `none` = unknown op / malformed -/
 def handle (op : String) (args : List String) : Option String :=
-  if op.startsWith "c03.holds." then
+  if op == "c03.holds.changed_spec" then
+    match changedOracle args with
+    | some b => some (boolStr b)
+    | none => some "false"
+  else if op.startsWith "c03.holds." then
     let name := (op.drop 10).toString
     match oracle name args with
     | some b => some (boolStr b)
